@@ -43,7 +43,11 @@ class BuildDirector(SectionLineParser):
         self.persistence_length = {}
         self.templates = {}
         self.current_template = None
-        self.resnames_to_hash = {}
+        # several build files can be read into one topology; the names of
+        # the templates read so far are shared between their parsers
+        if not hasattr(topology, "resnames_to_hash"):
+            topology.resnames_to_hash = {}
+        self.resnames_to_hash = topology.resnames_to_hash
 
     @SectionLineParser.section_parser('molecule')
     def _molecule(self, line, lineno=0):
@@ -238,6 +242,9 @@ class BuildDirector(SectionLineParser):
             if (molecule.mol_name, mol_idx)  in self.rw_option_lists:
                 for option in self.rw_option_lists[(molecule.mol_name, mol_idx)]:
                     self._tag_nodes(molecule, "rw_options", option, molecule.mol_name)
+            # templates of build files read earlier are kept
+            self.templates.update({key: value for key, value in getattr(molecule, "templates", {}).items()
+                                   if key not in self.templates})
             molecule.templates = self.templates
 
         super().finalize(lineno=lineno)
